@@ -58,6 +58,28 @@ var zzC07Queries = []string{
 	"{ node { id ... on A { c next { id ... on B { c next { id } } } } } }",
 	"{ u { ... on B { id c } } node { ... on A { id } } }",
 	"{ __type(name:\"Node\"){ possibleTypes{name} } c(in: RED) }",
+	"query($v:Boolean!){ c(in: GREEN) @skip(if:$v) node @include(if:$v){ id ... on A @skip(if:$v){ c } } }",
+	"query($v:Boolean!){ ...F @include(if:$v) u{ ... on B{ id } } } fragment F on Query{ c(in: RED) node{ id } }",
+	"{ c(in: RED) }", // same normalised key as query 0, other literal
+}
+
+// zzC07Vars: the variables of request i (the two requests may differ in them).
+func zzC07Vars(q, tag string) map[string]interface{} {
+	if !zzContains(q, "$v") {
+		return nil
+	}
+	return map[string]interface{}{"v": zzChoice("v"+tag, 2) == 1}
+}
+
+func zzC07Merge(a, b map[string]interface{}) map[string]interface{} {
+	out := map[string]interface{}{}
+	for k, v := range a {
+		out[k] = v
+	}
+	for k, v := range b {
+		out[k] = v
+	}
+	return out
 }
 
 // ZZ_C07_concurrent: two goroutines use one cold schema (or one prepared plan,
@@ -66,13 +88,19 @@ var zzC07Queries = []string{
 // schedules), nothing panics or deadlocks, and each response equals the
 // response of the same request run alone.
 func ZZ_C07_concurrent() {
-	scenario := zzChoice("scenario", 3) // 0 Do on a cold schema, 1 shared prepared plan, 2 shared plan cache
+	// 0 Do on a cold schema, 1 shared prepared plan, 2 shared cold plan cache,
+	// 3 shared plan cache already holding the plan of request 1 (concurrent hits)
+	scenario := zzChoice("scenario", 4)
 	q1 := zzC07Queries[zzChoice("q1", len(zzC07Queries))]
-	q2 := zzC07Queries[zzChoice("q2", len(zzC07Queries))]
+	q2 := q1
+	if scenario != 1 { // the shared plan is planned for q1 and executed twice
+		q2 = zzC07Queries[zzChoice("q2", len(zzC07Queries))]
+	}
 	// sequential baselines on a separate schema (the shared one must stay cold)
 	bs := zzC07Schema()
-	want1 := Do(Params{Schema: bs, RequestString: q1})
-	want2 := Do(Params{Schema: bs, RequestString: q2})
+	vars := []map[string]interface{}{zzC07Vars(q1, "1"), zzC07Vars(q2, "2")}
+	want1 := Do(Params{Schema: bs, RequestString: q1, VariableValues: vars[0]})
+	want2 := Do(Params{Schema: bs, RequestString: q2, VariableValues: vars[1]})
 	schema := zzC07Schema()
 	var plan *Plan
 	var cache *PlanCache
@@ -80,25 +108,29 @@ func ZZ_C07_concurrent() {
 	case 1:
 		doc := zzParse(q1)
 		plan, _ = PlanQuery(&schema, doc, "")
-		want2 = want1
-	case 2:
+		vars[1] = zzC07Vars(q1, "2b") // the same plan, possibly other variable values
+		want2 = Do(Params{Schema: bs, RequestString: q1, VariableValues: vars[1]})
+	case 2, 3:
 		cache = NewPlanCache(PlanCacheOptions{MaxEntries: 1, Normalize: zzChoice("normalize", 2) == 1})
+		if scenario == 3 {
+			cache.Get(&schema, q1, "")
+		}
 	}
 	results := make([]*Result, 2)
 	run := func(i int, q string) {
 		switch scenario {
 		case 0:
-			results[i] = Do(Params{Schema: schema, RequestString: q})
+			results[i] = Do(Params{Schema: schema, RequestString: q, VariableValues: vars[i]})
 		case 1:
-			results[i] = ExecutePlan(plan, ExecuteParams{Schema: schema})
-		case 2:
+			results[i] = ExecutePlan(plan, ExecuteParams{Schema: schema, Args: vars[i]})
+		case 2, 3:
 			pr := cache.Get(&schema, q, "")
 			if pr.Plan != nil {
-				results[i] = ExecutePlan(pr.Plan, ExecuteParams{Schema: schema, Args: pr.SynthArgs})
+				results[i] = ExecutePlan(pr.Plan, ExecuteParams{Schema: schema, Args: zzC07Merge(vars[i], pr.SynthArgs)})
 			} else {
 				results[i] = &Result{Errors: pr.Errors}
 			}
-			if i == 1 {
+			if i == 1 && scenario == 2 {
 				cache.Reset()
 			}
 		}
